@@ -8,7 +8,9 @@ import time
 from typing import Dict, List, Optional
 
 VERIF = pathlib.Path(__file__).resolve().parent.parent
-EVIDENCE = VERIF / "evidence"
+# evidence of the registered checks goes to /verif/evidence; the campaign tools (which run the checks on a patched /repo)
+# redirect it to a scratch directory so that the committed evidence always describes /repo itself
+EVIDENCE = pathlib.Path(os.environ.get("SA_EVIDENCE_DIR") or (VERIF / "evidence"))
 KNOWN = VERIF / "known_findings.json"
 
 
